@@ -319,6 +319,7 @@ class Recorder:
 
     def __init__(self):
         self.wfs = []       # one per reconcile_workflow invocation (outermost first)
+        self.invs = []      # one per _reconcile_steps invocation
         self.fes = []       # one per _for_each_reconciler invocation
 
     def install(self):
@@ -347,11 +348,13 @@ class Recorder:
                 _cur_wf.reset(tok)
 
         async def _reconcile_steps(**kw):
-            inv = {"steps": list(kw["steps"]), "ends": {}, "logic": set(), "ret": None, "raised": None}
+            inv = {"steps": list(kw["steps"]), "ends": {}, "tasks": {}, "logic": set(), "ret": None, "raised": None}
+            rec.invs.append(inv)
             w = _cur_wf.get()
             if w is not None:
                 w["inv"] = inv
             tok = _cur_inv.set(inv)
+            tokf = _cur_fe.set(None)
             try:
                 ret = await orig["_reconcile_steps"](**kw)
                 inv["ret"] = ret
@@ -361,6 +364,7 @@ class Recorder:
                 raise
             finally:
                 _cur_inv.reset(tok)
+                _cur_fe.reset(tokf)
 
         async def _reconcile_step(**kw):
             inv = _cur_inv.get()
@@ -417,7 +421,8 @@ class Recorder:
             cs = _cur_step.get()
             if cs is not None and cs[0] is not None:
                 cs[0]["logic"].add(cs[1])
-            fe = {"label": kw["step"].label, "location": kw["location"], "ends": {}, "n": None, "ret": None, "raised": None}
+            fe = {"label": kw["step"].label, "location": kw["location"], "ends": {}, "tasks": {}, "n": None, "ret": None,
+                  "raised": None}
             rec.fes.append(fe)
             tok = _cur_fe.set(fe)
             try:
@@ -430,6 +435,21 @@ class Recorder:
             finally:
                 _cur_fe.reset(tok)
 
+        # the Task objects themselves: the END STATE of a task is what task.cancelled() / task.exception() say
+        # afterwards, which is NOT always how its coroutine ended (a coroutine that swallows a cancellation and
+        # returns while a second cancel request is pending leaves a CANCELLED task: "cancelled right before coro stops")
+        self.orig_create_task = asyncio.TaskGroup.create_task
+
+        def create_task(tg, coro, *, name=None, context=None):
+            t = rec.orig_create_task(tg, coro, name=name, context=context)
+            fe, inv = _cur_fe.get(), _cur_inv.get()
+            if fe is not None:
+                fe["tasks"][name] = t
+            elif inv is not None:
+                inv["tasks"][name] = t
+            return t
+        asyncio.TaskGroup.create_task = create_task
+
         for n, f in (("reconcile_workflow", reconcile_workflow), ("_reconcile_steps", _reconcile_steps),
                      ("_reconcile_step", _reconcile_step), ("_reconcile_step_logic", _reconcile_step_logic),
                      ("_for_each_reconciler", _for_each_reconciler)):
@@ -439,6 +459,33 @@ class Recorder:
     def uninstall(self):
         for n, f in self.orig.items():
             setattr(self.R, n, f)
+        asyncio.TaskGroup.create_task = self.orig_create_task
+
+    @staticmethod
+    def task_end(t):
+        if not t.done() or t.cancelled():
+            return ("C",)
+        e = t.exception()
+        if e is not None:
+            return ("E", bool(e))
+        return ("F", t.result().result)
+
+    def settle(self):
+        """replace the coroutine-level ends by the end states of the Task objects; count disagreements"""
+        self.disagree = 0
+        for inv in self.invs:
+            coro = inv["ends"]
+            inv["coro_ends"] = coro
+            inv["ends"] = {name: self.task_end(t) for name, t in inv["tasks"].items()}
+            self.disagree += sum(1 for k, v in inv["ends"].items() if (coro.get(k) or ("C",))[0] != v[0])
+        for fe in self.fes:
+            coro = fe["ends"]
+            fe["coro_ends"] = coro
+            ends = {}
+            for name, t in fe["tasks"].items():
+                ends[int(name.rsplit("-", 1)[1])] = self.task_end(t)
+            fe["ends"] = ends
+            self.disagree += sum(1 for k, v in ends.items() if (coro.get(k) or ("C",))[0] != v[0])
 
 
 def run_pass(wf, cluster: Cluster, key="wfkey"):
@@ -462,6 +509,7 @@ def run_pass(wf, cluster: Cluster, key="wfkey"):
         escaped = type(e).__name__
     finally:
         rec.uninstall()
+        rec.settle()
     return {"res": res, "t": t, "escaped": escaped, "rec": rec, "calls": cluster.calls[n0:], "base": base}
 
 
@@ -890,6 +938,8 @@ def explore_workflow(ctx: Ctx, case, cases, terms, budget):
                                        "result": canon_result(obs["res"]) if obs["res"] is not None else None}))
         key = f"{case['uid']}|{sorted(map(str, initial))}|{p}|{sorted(pl['faults'].items())}|{sorted(latency.items())}"
         ctx.note_case({"uid": case["uid"], "pass": p, "faults": pl["faults"]}, nontrivial=bool(fired), key=key)
+        if obs["rec"].disagree:
+            ctx.count("task-end-differs-from-coroutine-end", obs["rec"].disagree)
         for (_i, k) in fired:
             ctx.count(f"fault:{k}")
         for c in obs["calls"]:
